@@ -126,14 +126,14 @@ def gen_sources(rng, n_sources, bsz, max_msgs=12, containers=("plain",), tie_hea
         inst = sorted(rng.choice(pool) for _ in range(n))
         notation = rng.choice(notations)
         off = rng.choice(world.OFFSETS_HOUR if notation == 3 else world.OFFSETS_ALL)
-        if notation in (0, 6):
+        if notation in (0, 6, 8):
             off = 0  # zone-less stamps are written in UTC and the run passes --tz-offset +00:00
         prefix_len = rng.choice((0, 3, 12, 40, 150, 400)) if notation >= 4 else 0
         p = world.TextLogParams(notation=notation, off_min=off, vary_offset=rng.random() < 0.3,
                                 n_msgs=n, src_letter=letter, bsz=bsz if (rng.random() < 0.5 and bsz <= 4096) else 0,
                                 cont_p=rng.choice((0.0, 0.3, 0.6)), special=special,
                                 final_newline=rng.random() < 0.8, instants=inst,
-                                frac_digits=rng.choice(frac_choices), crlf_p=crlf_p, blank_p=blank_p,
+                                frac_digits=frac_for(notation, rng.choice(frac_choices)), crlf_p=crlf_p, blank_p=blank_p,
                                 preamble_lines=(rng.randint(1, 3) if rng.random() < preamble_p else 0),
                                 body_len=(0, rng.choice((10, 40, 120))), prefix_len=prefix_len)
         if first_line_max is not None:
@@ -174,7 +174,12 @@ def gen_sources(rng, n_sources, bsz, max_msgs=12, containers=("plain",), tie_hea
 
 # notations for checks that do not care where in the line the stamp sits: mostly column 0, one source in eight with the
 # stamp inside the line (world.line_head, notations 4 and 5: found by s4's wide patterns only)
-NOTATIONS_WIDE = (1, 1, 1, 1, 1, 1, 2, 2, 3, 3, 0, 0, 1, 1, 4, 5, 6, 6, 7, 1)
+NOTATIONS_WIDE = (1, 1, 1, 1, 1, 1, 2, 2, 3, 3, 0, 0, 1, 1, 4, 5, 6, 6, 7, 8, 8, 1)
+
+
+def frac_for(notation, fd):
+    """epoch stamps (notation 8) are recognised with 3, 6 or 9 fraction digits only"""
+    return fd if (notation != 8 or fd in (3, 6, 9)) else 3
 
 
 def draw_mtime(rng, msgs):
